@@ -124,6 +124,21 @@ def spec : SFn → Nat → Args → World → SOut
               | .exc _ _ => { r with unspec := true, w := { r.w with oinv := r.w.oinv + 1 } }    -- "when both agree": other raising is not covered
         | _ => r
 
+/-- "the base class lacks the name": the name is not among the names the class lists as its own — by default the names
+    bound in its class body or in the body of one of its ancestors (whatever object is bound there: a method, a property,
+    `None`, `0`, …); what merely the *metaclass* binds or answers (`mro`, `__call__`, a `__getattr__` hook) is not a name of
+    the class.  A metaclass that overrides `__dir__` states the listing itself. -/
+def LacksName (c : ClassDesc) (n : Nat) : Prop :=
+  match c.dirOverride with
+  | some listing => n ∉ listing
+  | none => ∀ body ∈ c.mro, ∀ m ∈ body, m.name ≠ n
+
+/-- the same, executable -/
+def hasName (c : ClassDesc) (n : Nat) : Bool :=
+  match c.dirOverride with
+  | some listing => listing.any (fun k => k == n)
+  | none => c.mro.any (fun body => body.any (fun m => m.name == n))
+
 /-- applying the decorators, innermost first: `overrides` fails iff the base class lacks the name -/
 def specDecorate : SFn → Option Exc
   | .body _ => none
@@ -131,7 +146,7 @@ def specDecorate : SFn → Option Exc
   | .layer k p i =>
     match specDecorate i with
     | some e => some e
-    | none => if k = .overrides && !p.baseHasName then some (.lib "PedanticOverrideException") else none
+    | none => if k = .overrides && !hasName p.base p.fname then some (.lib "PedanticOverrideException") else none
 
 def specHistory (f : SFn) (n : Nat) : List Args → World → List SOut
   | [], _ => []
